@@ -63,6 +63,9 @@
     `T d1 , d2 , … , dn ;` for any n — through the whole of one iteration of the parse loop on the
     regenerated rules, dispatch table and keep set: one `on_variable` per declarator, in order,
     nothing else delivered, the statement consumed exactly, no doc text handed on.
+  * `C01_toplevel_typedef` (`Theorems/TypedefForm.lean`, `TopLevel.lean`): `typedef T ptr-ops x ;` through the
+    whole parse loop and the recursive core, in any block: exactly ONE `on_typedef` with the name,
+    the type the declarator denotes and (in a class body) the access level in force.
 -/
 import CxxModel.Tables
 import CxxModel.Props.C04
@@ -356,5 +359,35 @@ example (cfg : LexCfg) (n : PQName) :
     by decide, by decide, by decide, by simp [applyPtrOps, ptrStep, P.isRefLike, P.setConst, tkv]⟩
   exact .cons (tokenEofOk_pop' cfg _ _ [tkv "const" "const", tkv "WHITESPACE" " ", tkv "NAME" "x", tkv ";" ";"] (by decide))
     (.cons (tokenEofOk_pop' cfg _ _ [tkv "WHITESPACE" " ", tkv "NAME" "x", tkv ";" ";"] (by decide)) (.nil _))
+
+section
+open P
+
+theorem C01_toplevel_typedef (env : Env) (hc : env.cfg = genLexCfg) (F D : Nat) (w : World)
+    (kw first : Tok) (pairs : List (Tok × Tok)) (ops : List Tok) (x semi : Tok) (d1 : DType) (bk b1 b0 bmid bx b' : Buf)
+    (blk : Block) (rest : List Block) (hstack : w.stack = blk :: rest) (hxne : x.value ≠ "")
+    (hmu : w.muted = false) (hfa : ¬ env.faultAt = some w.delivered)
+    (htkw : tokenEofOk env.cfg w.buf = .ok (some kw, bk)) (hkw : kw.type = "typedef")
+    (htok : tokenEofOk env.cfg bk = .ok (some first, b1))
+    (hty : first.type = "NAME") (htv : identVal first.value = true)
+    (hall : ∀ p ∈ pairs, p.1.type = "DBL_COLON" ∧ p.2.type = "NAME" ∧ plainVal p.2.value = true)
+    (hy0 : Yields env.cfg b1 (pairs.flatMap (fun p => [p.1, p.2])) b0)
+    (hops : opsHeadOk ops = true) (hopsv : ∀ o ∈ ops, o.value ≠ "auto")
+    (hy : Yields env.cfg b0 ops bmid)
+    (ha : applyPtrOps (.type (.mk (.name first.value none :: pairs.map (fun p => .name p.2.value none)) none false) false false)
+      (ops.map (·.type)) = some d1)
+    (htx : tokenEofOk env.cfg bmid = .ok (some x, bx)) (hx : x.type = "NAME") (hxv : identVal x.value = true)
+    (hsemi : tokenEofOk env.cfg bx = .ok (some semi, b')) (hs : semi.type = ";")
+    (hF : pairs.length + ops.length + 2 ≤ F) :
+    ∃ (w7 : World) (ct : CTok) (ev : Event),
+      interp env (mainBody F (core F (D + 1 + 1)) none) w = (w7, .ok (.inl none)) ∧
+      SigEq b' w7.buf ∧ ct.value = first.value ∧ w7.stack = { blk with loc := .tok ct.sidx } :: rest ∧
+      w7.events = w.events ++ [ev] ∧ ev.kind = .item (.typedef (plainTypedef x d1 blk)) ∧
+      ev.stateId = blk.id ∧ ev.parentId = rest.head?.map (·.id) ∧
+      w7.delivered = w.delivered + 1 ∧ w7.anon = w.anon ∧ w7.muted = false ∧ w7.nextId = w.nextId :=
+  toplevel_typedef env (by rw [hc]; exact gen_rules_progress) F D w kw first pairs ops x semi d1 bk b1 b0 bmid bx b' blk rest hstack hxne hmu hfa
+    htkw hkw htok hty htv hall hy0 hops hopsv hy ha htx hx hxv hsemi hs hF
+
+end
 
 end Cxx
